@@ -609,6 +609,17 @@ ROWS = [
 ]
 
 
+def r7_listings(ctx, hugr, file) -> None:
+    """the per-node listings alone (for properties that search them): outgoing_links / incoming_links enumerate the value ports 0..n-1"""
+    for name, table, direction in (("outgoing_links", "self._links.fwd", "Direction.OUTGOING"), ("incoming_links", "self._links.bck", "Direction.INCOMING")):
+        m = hugr.methods.get(name)
+        if m is None:
+            ctx.broken(f"anchor vanished: Hugr.{name}")
+        ok, why = _listing_rule(ctx, name, table, direction)
+        ctx.check(ok, "C04.R7", f"Hugr.{name}", file, m.lineno,
+                  f"Hugr.{name} must enumerate ports 0..n-1 of {direction}, each with all the ports linked to it in {table}" + (f" [{why}]" if why else ""), m)
+
+
 def r6_r7_tables(ctx, hugr, file, only=None) -> None:
     """only: restrict to these query rows (for properties that rely on a few queries) and skip the add_link / direction rules"""
     from ..nf import NF, Env, Opaque, show, sym
